@@ -20,7 +20,7 @@ from props._c09x_inline import case_inl, gen_inl
 PROP = "C09"
 READY = True
 DRIVER = "dm_graph"
-LEAN_MODULES = ["DaskModel.Props.C09"]
+LEAN_MODULES = ["DaskModel.Props.C09", "DaskModel.Props.C09xInline"]
 TABLES = ["FusedKeyRenamer"]
 LEVEL_TEXT = ("Lean 4 theorems over transliterations of the legacy passes (get_dependencies/keys_in_tasks, dask.core.subs, "
               "dask.optimization.cull) and of the task-spec passes of dask/_task_spec.py (cull, GraphNode.substitute, resolve_aliases, "
@@ -39,8 +39,16 @@ LEVEL_TEXT = ("Lean 4 theorems over transliterations of the legacy passes (get_d
               "the source, renamer_length_le). PROVED CHECKERS applied to every real output of the run (translation validation): "
               "fuseOK_sound (inline, inline_functions, fuse_linear, fuse without renaming), fuseOKR_sound (rename_keys=True/custom: "
               "alias insertion, renamed references, deleted old keys), fuse_spec_preserves_eval (real fuse_linear_task_spec and "
-              "GraphNode.fuse outputs). PARTIAL: that the legacy fuse/fuse_linear/inline/inline_functions always produce outputs "
-              "the checkers accept is validated per run, not proved; the loop fuel of the resolve_aliases model is validated (the "
+              "GraphNode.fuse outputs). EXTENSION ROUND, PROVED FOR ALL INPUTS (Props/C09xInline.lean, over a transliteration of "
+              "dask.optimization.inline / inline_functions: inline_constants, replace order = the C07 toposort model on the "
+              "dependency sets, keysubs loop, loop over the remaining entries, inlinable / functions_of with the fast-function "
+              "test as a predicate, the del loop; set iteration order as a parameter): inline_preserves_eval (every DAG, every "
+              "key list, both inline_constants: the function returns, the key set is unchanged, no entry refers to an inlined "
+              "key any more, every key computes what it computed before), inline_functions_preserves_eval (every DAG, output "
+              "list and fast-function predicate: returns, every output key kept, every kept key computes the same values), "
+              "inline_replace_order_ok (toposort never raises on a DAG and yields dependencies first), "
+              "inlineWith_preserves_eval (the loops on any such order). PARTIAL: that the legacy fuse/fuse_linear always "
+              "produce outputs the checkers accept is validated per run, not proved; the loop fuel of the resolve_aliases model is validated (the "
               "model never answers 'fuel'); fuse_linear_task_spec is proved about its transliteration, which is "
               "diffed against the real function on every case (incl. cyclic-free exhaustive DAG shapes up to 4 nodes).")
 LEVEL_NOTE = ("Trusted: Lean kernel + standard axioms; hand transliterations tied by function-level diffs (legacy cull keys + "
@@ -49,7 +57,9 @@ LEVEL_NOTE = ("Trusted: Lean kernel + standard axioms; hand transliterations tie
               "digest recomputed by the harness); every real optimiser output is evaluated with dask.core.get; the model's evaluator "
               "of fused graphs (evalKeyF) is diffed against the real execution of _execute_subgraph tasks; every legacy pass is called "
               "with list and set key containers, with and without dependencies=, inline_functions with inline_constants False/True, "
-              "under an argument-purity oracle (graph, keys, dependencies unchanged by the call). No known finding is "
+              "under an argument-purity oracle (graph, keys, dependencies unchanged by the call); legacy inline / inline_functions are "
+              "diffed structurally (returned graph as a dict) against their transliterations under two set-iteration orders and on "
+              "the replace order observed on the real toposort call, whose TopoOK hypotheses are checked. No known finding is "
               "left. Fixed in /repo: fuse(ave_width=inf) OverflowError; fuse_linear_task_spec with unrenamable keys stored the "
               "fused task under None; key_split(()) IndexError; fuse_linear_task_spec overwrote a task when the renamed key was "
               "taken (11f7d6c); substitute/fuse ignored a falsy new key (7e731f4); Alias.substitute ignored key= for an identity "
